@@ -20,7 +20,8 @@ import pyairtouch.comms.socket as psock
 
 from . import simloop
 
-assert os.path.realpath(pyairtouch.__file__).startswith("/repo/"), pyairtouch.__file__
+REPO = os.path.realpath(os.environ.get("VF_REPO", "/repo")) + "/"
+assert os.path.realpath(pyairtouch.__file__).startswith(REPO), pyairtouch.__file__
 
 # UDP: discovery.py creates real sockets; replace the module it sees.
 _disc.socket = simloop.fake_socket_module()
@@ -406,7 +407,7 @@ class Explored:
         def sched(code, offset, *rest):
             k = self._codes.get(code)
             if k is None:
-                if not code.co_filename.startswith("/repo/pyairtouch") or not (
+                if not code.co_filename.startswith(REPO + "pyairtouch") or not (
                         code.co_flags & CO_COROUTINE):
                     self._codes[code] = 0
                     return mon.DISABLE
@@ -417,8 +418,8 @@ class Explored:
             return None
 
         def line(code, lineno):
-            if code.co_filename.startswith("/repo/pyairtouch"):
-                self.lines.add((code.co_filename[len("/repo/"):], lineno))
+            if code.co_filename.startswith(REPO + "pyairtouch"):
+                self.lines.add((code.co_filename[len(REPO):], lineno))
             return mon.DISABLE
 
         mon.register_callback(self.TOOL, E.PY_START, sched)
